@@ -1048,6 +1048,7 @@ class Tensor:
         op_kwargs: Optional[Dict[str, Any]] = None,
         constant: Optional[bool] = None,
         out: Optional[Union[np.ndarray, "Tensor"]] = None,
+        _own_arguments: bool = True,
     ):
         """Wraps operations performed between tensors: f(a, b, ...).
 
@@ -1170,8 +1171,10 @@ class Tensor:
         # The arguments are part of the recorded operation (they are kept for
         # back-propagation and for replaying view-ops): mutable ones are copied so
         # that the caller can re-use its lists / arrays afterwards
-        op_args = tuple(_own_arg(arg) for arg in op_args)
-        op_kwargs = {key: _own_arg(arg) for key, arg in op_kwargs.items()}
+        # (internal graph-surgery ops hand over the very array their result wraps)
+        if _own_arguments:
+            op_args = tuple(_own_arg(arg) for arg in op_args)
+            op_kwargs = {key: _own_arg(arg) for key, arg in op_kwargs.items()}
 
         f = Op()
 
@@ -1911,6 +1914,7 @@ class Tensor:
                     "mutant_base_data": mutant_base_data,
                     "view_fn_sequence": view_fn_sequence,
                 },
+                _own_arguments=False,
             )
 
         del placeholder_mutant_view
